@@ -2443,7 +2443,9 @@ class CartesianBlock(Block):
         """
         if self.core is not None:
             indices = self.spatialLocator.getCompleteIndices()
-            if self.core.symmetry.isThroughCenterAssembly:
+            symmetry = self.core.symmetry
+            # a full core has no symmetry lines, even when its grid is centered on an assembly
+            if symmetry.isThroughCenterAssembly and symmetry.domain != geometry.DomainType.FULL_CORE:
                 if indices[0] == 0 and indices[1] == 0:
                     # central location
                     return 4.0
